@@ -40,7 +40,8 @@ def _pair_init():
 
 
 def _pair_stats():
-    return dict(pairs=0, engine_runs=0, user_ops=0, plans={}, forms={}, flavours={}, opkinds={}, effects_ref=0, effects_mangled=0,
+    return dict(pairs=0, engine_runs=0, user_ops=0, plans={}, forms={}, families={}, flavours={}, opkinds={}, effects_ref=0, effects_mangled=0,
+                long_held=0, long_holds_ended_by_quiet=0, events_held_7_or_more_sync_steps=0,
                 extra_effects_free_form=0, missing_effects_free_form=0, noop_calls_ref=0, noop_calls_mangled=0,
                 events=0, copies_delivered=0, dropped_paths=0, held=0, late_copies=0, forced_by_flush_rule=0, permuted_batches=0,
                 walks=0, events_calls=0, distinct=set(), samples=[])
@@ -79,6 +80,9 @@ def _account(st, case, r):
             st["forced_by_flush_rule"] += ms["forced"]
             st["permuted_batches"] += ms["permuted"]
             st["events_calls"] += ms["calls"]
+            st["long_held"] += ms["long_held"]
+            st["long_holds_ended_by_quiet"] += ms["long_released_by_quiet"]
+            st["events_held_7_or_more_sync_steps"] += int(ms["max_sync_steps_held"] >= 7)
     st["walks"] += r["mangler"].get("walks", 0)
     st["walks_of_quiet_engine"] = st.get("walks_of_quiet_engine", 0) + r["mangler"].get("quiet_walks", 0)
     if nu >= 1 and r["n_eff_man"] >= 1:
@@ -89,7 +93,7 @@ def _account(st, case, r):
 
 
 def _pair_chunk(args):
-    seed, start, count = args
+    fam, seed, start, count = args
     if "monitor" not in _W:
         _pair_init()
     from .. import enginecheck as EC
@@ -97,12 +101,13 @@ def _pair_chunk(args):
     st = _pair_stats()
     fails = []
     for i in range(start, start + count):
-        rng = random.Random("%s/C14/mangled/%d" % (seed, i))
-        case = FC.mangled(rng)
+        rng = random.Random("%s/C14/%s/%d" % (seed, fam, i))
+        case = getattr(FC, fam)(rng)
         r = FC.run_pair(case, _W["monitor"])
         _account(st, case, r)
+        st["families"][fam] = st["families"].get(fam, 0) + 1
         if r["problems"]:
-            fails.append((i, EC.jsonable_case(case), r["problems"], [repr(e)[:160] for e in r["man"].events[-10:]]))
+            fails.append(([fam, i], EC.jsonable_case(case), r["problems"], [repr(e)[:160] for e in r["man"].events[-10:]]))
     st["distinct"] = list(st["distinct"])
     return st, fails
 
@@ -246,7 +251,7 @@ def run(ctx):
             distinct += len(seen)
         # ================= tie (ii): engine pairs (own pool: harness.engine.install)
         t0 = time.time()
-        npairs = 1100 if ctx.quick else 40000
+        npairs = 900 if ctx.quick else 32000
         with mpc.Pool(nw, initializer=_pair_init) as pool:
             parts = [pair_files[k::nw] for k in range(nw) if pair_files[k::nw]]
             cres = [x for part in pool.map(_pair_corpus, parts) for x in part] if parts else []
@@ -264,7 +269,9 @@ def run(ctx):
                     if exp and not kinds:
                         print("# corpus case %s no longer fails (expected %s)" % (fn, exp))
             chunk = 25
-            jobs = [(ctx.seed, s, min(chunk, npairs - s)) for s in range(0, npairs, chunk)]
+            nreuse = 400 if ctx.quick else 10000
+            jobs = [("mangled", ctx.seed, s, min(chunk, npairs - s)) for s in range(0, npairs, chunk)]
+            jobs += [("reuse_folder", ctx.seed, s, min(chunk, nreuse - s)) for s in range(0, nreuse, chunk)]
             res = pool.map(_pair_chunk, jobs, chunksize=1)
             pst = _pair_stats()
             fails = []
@@ -288,7 +295,7 @@ def run(ctx):
                 ctx.violation("mangled event delivery changes the outcome (plan %s, %s form): %s"
                               % (case_j["mangle"]["name"], case_j["mangle"].get("form"),
                                  "; ".join("%s (%s)" % (PAIR_KINDS.get(p[0], p[0]), str(p[1])[:160]) for p in problems2)),
-                              dict(kind="engine-pair", family=["mangled", i], case=small, original=case_j, trace_tail=tail))
+                              dict(kind="engine-pair", family=i, case=small, original=case_j, trace_tail=tail))
             pst.update(corpus_cases=len(cres), corpus_cases_failing=ncorpus_bad, pairs_with_problem=len(fails), problems_by_kind=by_kind,
                        wall_s=round(time.time() - t0, 1))
             streams["engine_pairs"] = pst
@@ -303,7 +310,8 @@ def run(ctx):
                    "late, as event or as walk event), get_latest with a stubbed provider answer, mark_dirty, and the engine-like state "
                    "operations of the C11 alphabet; compared with the model after every operation; non-trivial = at least 2 executed operations. "
                    "(ii) a case = clean-domain history (one-sided or disjoint; acting sides id-stable; unfiltered events; DESIGN §4.3) + a "
-                   "mangling plan, executed twice on the real engine (2 engine runs per pair); non-trivial = at least one user operation "
+                   "mangling plan, or (family reuse_folder) a folder deleted and, after a drain, re-created under the same name with content while the "
+                   "new folder's events are held for 6-12 sync steps; executed twice on the real engine (2 engine runs per pair); non-trivial = at least one user operation "
                    "and one tree-changing engine call in the mangled run; distinct = distinct (flavour, base, schedule, plan).")
     cov["exhaustive"] = False
     cov["samples"] = samples[:6]
